@@ -1,0 +1,55 @@
+//go:build verif
+
+package streams
+
+import "sync/atomic"
+
+// Verification hook (build tag `verif` only; see /verif/docs/C01.md).
+//
+// verifYield is called immediately before every atomic action of Stdin (each
+// mutex critical section and each poll of the context). When a callback is
+// installed the caller becomes a deterministic scheduler for the real code at
+// critical-section granularity. No mutex is held at any yield point.
+
+var verifYieldFn atomic.Pointer[func(*Stdin, string)]
+
+// VerifSetYield installs (or, with nil, removes) the yield callback.
+func VerifSetYield(fn func(stdin *Stdin, point string)) {
+	if fn == nil {
+		verifYieldFn.Store(nil)
+		return
+	}
+	verifYieldFn.Store(&fn)
+}
+
+func verifYield(stdin *Stdin, point string) {
+	if fn := verifYieldFn.Load(); fn != nil {
+		(*fn)(stdin, point)
+	}
+}
+
+// VerifState is a copy of the internal state of a Stdin.
+type VerifState struct {
+	Buffer     []byte
+	Dependents int32
+	Max        int
+	DataType   string
+	Written    uint64
+	Read       uint64
+	Cancelled  bool
+}
+
+// VerifSnapshot returns a copy of the internal state (taken under the mutex).
+func (stdin *Stdin) VerifSnapshot() VerifState {
+	stdin.mutex.Lock()
+	defer stdin.mutex.Unlock()
+	return VerifState{
+		Buffer:     append([]byte(nil), stdin.buffer...),
+		Dependents: stdin.dependents,
+		Max:        stdin.max,
+		DataType:   stdin.dataType,
+		Written:    stdin.bWritten,
+		Read:       stdin.bRead,
+		Cancelled:  stdin.ctx.Err() != nil,
+	}
+}
